@@ -194,6 +194,18 @@ RECIPES.update({
                                     rename={'vp_ofstream_ctor1': 'vp_ofstream_open', 'mc_result_error': 'mc_result_error_det'})),
 })
 
+_ST_OPTS = dict(streams=True)
+RECIPES.update({
+    'mc_result_serialize': dict(name='serialize', cls='mc_result', self='mc_result', opts=_ST_OPTS),
+    'vegas_pdf_serialize': dict(name='serialize', cls='vegas_pdf', self='vegas_pdf', opts=_ST_OPTS),
+    'vegas_pdf_ctor1': dict(name='vegas_pdf', cls='vegas_pdf', self='vegas_pdf', ctor=True, sel='istream', opts=_ST_OPTS),
+    'vegas_chkpt_serialize': dict(unit='chkpt', name='serialize', cls='vegas_chkpt', self='vegas_chkpt', opts=_ST_OPTS),
+    'vegas_chkpt_ctor1': dict(unit='chkpt', name='vegas_chkpt', cls='vegas_chkpt', self='vegas_chkpt', ctor=True, sel='istream', opts=_ST_OPTS),
+    'multi_channel_chkpt_serialize': dict(unit='chkpt', name='serialize', cls='multi_channel_chkpt', self='multi_channel_chkpt', opts=_ST_OPTS),
+    'multi_channel_chkpt_ctor1': dict(unit='chkpt', name='multi_channel_chkpt', cls='multi_channel_chkpt', self='multi_channel_chkpt', ctor=True, sel='istream', opts=_ST_OPTS),
+    'mc_result_ctor1': dict(name='mc_result', cls='mc_result', self='mc_result', ctor=True, sel='istream', opts=_ST_OPTS),
+})
+
 # ---- fragments: single expressions inside the MPI drivers -----------------------------------
 _SUBP = [('size_t', 'calls'), ('int', 'rank'), ('int', 'world')]
 _DISP = [('size_t', 'calls'), ('int', 'rank'), ('int', 'world'), ('size_t', 'usage')]
@@ -401,6 +413,20 @@ JOBS = [
          preludes=['opaque.h'], globals='vp_ostream vp_cout; size_t vp_combine_calls, vp_combine_lo, vp_combine_hi, vp_file_opens, vp_file_writes, vp_summary_calls; const void *vp_file_arg, *vp_file_name, *vp_combine_vec; _Bool vp_g_decision; struct mc_result vp_combined;',
          defines=['VP_NMAX=1048576'], props=['C20', 'C12', 'C03'],
          trusted=['printing (operator<< on std::cout), std::ofstream, chkpt.serialize and multi_channel_summary are stubs with ghost logs: the text they produce is not modelled']),
+    dict(name='c05_mc_result', functions=['mc_result_serialize', 'mc_result_ctor1'], specs=['c05_mc_result'], harness_sections=['c05_mc_result'], entry='h_c05_mc_result', enforce=None,
+         structs=[dict(prelude='stream.h'), dict(cls='mc_result')], globals='T nondet_T(void); size_t nondet_size_t(void);', loop_contracts=False, props=['C05', 'C03'],
+         trusted=['iostream contract of vp/prelude/stream.h (digits -> bits is libstdc++\'s)']),
+    dict(name='c05_vegas_chkpt', functions=['vegas_chkpt_serialize', 'vegas_chkpt_ctor1'], specs=['c05_vegas_chkpt'], harness_sections=['c05_vegas_chkpt'], entry='h_c05_vegas_chkpt', enforce=None,
+         structs=[dict(prelude='stream.h')] + _ST_VCHK + [dict(prelude='stream_stubs.h')], preludes=['opaque.h'], globals='T nondet_T(void); size_t nondet_size_t(void);', loop_contracts=False,
+         props=['C05', 'C03', 'C19'], trusted=['iostream contract of vp/prelude/stream.h', 'nested objects (base checkpoint with its results, the grid) are single tokens in this lemma']),
+    dict(name='c05_multi_channel_chkpt', functions=['multi_channel_chkpt_serialize', 'multi_channel_chkpt_ctor1'], specs=['c05_multi_channel_chkpt'], harness_sections=['c05_multi_channel_chkpt'],
+         entry='h_c05_multi_channel_chkpt', enforce=None, bounded=True, cbmc_flags=['--unwind', '8', '--unwinding-assertions'],
+         structs=[dict(prelude='stream.h')] + _ST_MCHK + [dict(prelude='stream_stubs.h')], preludes=['opaque.h'], globals='T nondet_T(void); size_t nondet_size_t(void);', loop_contracts=False,
+         props=['C05', 'C03', 'C19'], trusted=['iostream contract of vp/prelude/stream.h', 'BOUNDED: at most 6 channels (loops unwound with unwinding assertions)']),
+    dict(name='c05_vegas_pdf', functions=['vegas_pdf_serialize', 'vegas_pdf_ctor1'], specs=['c05_vegas_pdf'], harness_sections=['c05_vegas_pdf'],
+         entry='h_c05_vegas_pdf', enforce=None, bounded=True, cbmc_flags=['--unwind', '14', '--unwinding-assertions'],
+         structs=[dict(prelude='stream.h'), dict(cls='vegas_pdf', cls_targs=['double'])], globals='T nondet_T(void); size_t nondet_size_t(void);', loop_contracts=False,
+         props=['C05', 'C03'], trusted=['iostream contract of vp/prelude/stream.h', 'BOUNDED: at most 3 dimensions x 3 bins (loops unwound with unwinding assertions)']),
     dict(name='refine_weights', functions=['multi_channel_refine_weights'], entry='h_multi_channel_refine_weights',
          enforce='multi_channel_refine_weights', replace=['vp_pow'], af=['multi_channel_refine_weights'], globals='T vp_g_s1, vp_g_s2; _Bool vp_g_nodata;',
          defines=['VP_NMAX=1048576'], props=['C08'], thorough_reals=['float'],
